@@ -109,11 +109,18 @@ pub struct PlanCfg {
     pub steps: (usize, usize),
     pub settle: usize,
     pub w: Weights,
+    /// share (in %) of LONG histories (default 4)
+    pub long_w: u32,
 }
 
 impl PlanCfg {
     pub fn new(w: Weights) -> Self {
-        PlanCfg { editors: (2, 4), observers: (0, 1), steps: (4, 24), settle: 8, w }
+        PlanCfg { editors: (2, 4), observers: (0, 1), steps: (4, 24), settle: 8, w, long_w: 4 }
+    }
+    /// share of long histories, in % (subjects whose containers only grow one element per op need many ops)
+    pub fn long_share(mut self, pct: u32) -> Self {
+        self.long_w = pct.clamp(1, 90);
+        self
     }
     pub fn steps(mut self, lo: usize, hi: usize) -> Self {
         self.steps = (lo, hi);
@@ -178,7 +185,7 @@ pub fn plan_strategy(cfg: &PlanCfg) -> BoxedStrategy<Plan> {
     let normal = (cfg.editors.0..=cfg.editors.1, cfg.observers.0..=cfg.observers.1, proptest::collection::vec(step_strategy(&cfg.w), cfg.steps.0..=cfg.steps.1), settle(), any::<u16>());
     let long = (cfg.editors.0..=(cfg.editors.1 + 2).min(6), cfg.observers.0..=cfg.observers.1, proptest::collection::vec(step_strategy(&cfg.w), long_lo..=long_hi), settle(), any::<u16>());
     let wide = (8u8..=16, cfg.observers.0..=cfg.observers.1, proptest::collection::vec(step_strategy(&cfg.w), 100usize..=130), settle(), any::<u16>());
-    prop_oneof![93 => normal, 4 => long, 3 => wide]
+    prop_oneof![97 - cfg.long_w => normal, cfg.long_w => long, 3 => wide]
         .prop_map(|(editors, observers, steps, settle, actors)| Plan { editors, observers, steps, settle, actors })
         .boxed()
 }
